@@ -136,7 +136,7 @@ def _stream(ctx: Check, stream: str, cases: list[dict], runner, mutant):
 
 
 def gen_corr_cases(ctx: Check, n: int, denom: int) -> list[dict]:
-    from harness.c03 import WAITS_ANY, WAITS_OFF_GRID, gen_clock_schedule, gen_method
+    from harness.c03 import WAITS_ANY, WAITS_TENTHS, gen_clock_schedule, gen_method
     rng = ctx.rng
     cases = []
     for _ in range(n):
@@ -146,7 +146,8 @@ def gen_corr_cases(ctx: Check, n: int, denom: int) -> list[dict]:
         if rng.random() < 0.5:
             feats -= {"alarm"}
         pcode, stats = gen_method(rng, feats, max_lines=rng.choice([8, 12, 14]), max_depth=rng.choice([2, 3]),
-                                  waits=WAITS_OFF_GRID if denom == 10 else WAITS_ANY)
+                                  waits=WAITS_TENTHS if denom == 10 else WAITS_ANY,
+                                  bases=["s", "s", "min", "h", "L", "mL", "CV"] if denom == 10 else None)
         for k, v in stats.items():
             ctx.count("instr:" + k, v)
         cases.append({"pcode": pcode, "ops": gen_clock_schedule(rng, rng.randrange(15, 50), denom=denom)})
@@ -172,6 +173,13 @@ HAND_CASES = [
     ("Base: s\nMacro: M1\n    Mark: a\n    Wait: 1s\n    Mark: b\nCall macro: M1\nCall macro: M1\nCall macro: M1", "0.1", 90, []),
     ("Base: s\nMacro: M1\n    Wait: 0.75s\n    Mark: b\nCall macro: M1\nMark: m\nCall macro: M1", "0.1", 70, [(30, "Pause"), (36, "Unpause")]),
     ("Base: s\nAlarm: T0 > 0\n    Mark: a\n    Wait: 0.75s\n    Mark: b", "0.1", 90, [(40, "Hold"), (44, "Unhold")]),
+    # volume / column-volume base units (totalizer 0.25 L per tick, column volume 2 L): outside and inside blocks
+    ("Base: L\n1 Mark: a\nBlock: B\n    Mark: p\n    0.75 Mark: x\n    End block\n0.5 Mark: y\nBase: mL\n6000 Mark: w", "0.1", 60, []),
+    ("Base: CV\n0.5 Mark: a\nBlock: C\n    Mark: p\n    0.5 Mark: z\n    Watch: T0 > 0\n        0.25 Mark: w\n    1.5 End block\n2 Mark: e", "0.1", 80,
+     [(20, "Pause"), (26, "Unpause")]),
+    # witness of the second recorded finding: the FIRST line of a block that starts when 1 CV has already been
+    # accumulated starts at once, although the block's own accumulator is 0
+    ("Base: CV\n1 Mark: a\nBlock: C\n    1 Mark: z\n    End block", "0.1", 40, []),
 ]
 
 
@@ -183,6 +191,8 @@ def hand_cases() -> list[dict]:
             plan[t].append(["user", cmd])
         if "T0" in pcode:
             plan[0 if "Alarm" in pcode else 10].append(["tag", "T0", 1])
+        for t in range(ticks):
+            plan[t].append(["tag", "Totalizer", 0.25 * (t + 1)])
         out.append({"pcode": pcode, "dt": dt, "ticks": ticks, "plan": plan})
     return out
 
